@@ -67,7 +67,7 @@ Theorem model_sp_cont sch l un pw rem HR :
      oob P (parse_userinfo STSpecialNotFile ser0 l) (ser0 ++ cred_text un pw, nlen ser0 + nlen un, rem)) ->
   ntnl rem = HR -> usv_list rem ->
   host_agree_sp hp hd shp shs (hss_host false HR) ->
-  spath_ok_s (path_text_s (sp_path_text_of HR)) [] [] = true ->
+  (starts_aes (sp_path_text_of HR) = true -> spath_ok_s (path_text_s (sp_path_text_of HR)) [] [] = true) ->
   match sauth_host_g shp u1 [] false HR with
   | None => mfail (ADS l sch)
   | Some su =>
@@ -84,7 +84,8 @@ Proof.
   destruct (sauth_host_g shp u1 [] false HR) as [su|] eqn:Esu.
   2:{ eapply mfail_bind2; [apply (HPU True); intros _; exact I|]. cbv beta iota.
       eapply mfail_bind2 with (P := True); [apply oob_u32; intros _; exact I|]. apply mfail_bind. exact HP. }
-  destruct HP as (host & sh & port & rem' & Ehp & Eshp & HhNe & Hpo & Hrem' & Hurem' & Esu' & Hends & HO).
+  destruct HP as (host & sh & port & rem' & Ehp & Eshp & HhNe & Hpo & Hrem' & Hurem' & HXae & Esu' & Hends & HO).
+  specialize (Hok HXae).
   unfold host_agree_sp in HA. destruct (hss_host false HR) as [|h0 hr] eqn:EHh; [contradiction HhNe; reflexivity|].
   rewrite Ehp, Eshp in HA. destruct HA as (Htxt & Hcol & Hne & Hne2 & Hsl).
   rewrite <- Hrem' in Hok.
@@ -151,7 +152,7 @@ Qed.
 (* the text l after "scheme:" and the slashes *)
 Theorem model_sp sch l : usv_list l -> scheme_canon sch = true -> scheme_type_of sch = STSpecialNotFile ->
   let T := ntnl l in
-  spath_ok_s (path_text_s (sp_path_text T)) [] [] = true ->
+  (starts_aes (sp_path_text T) = true -> spath_ok_s (path_text_s (sp_path_text T)) [] [] = true) ->
   host_agree_sp hp hd shp shs (sp_host_text T) ->
   match sauth_s shp sch T with
   | None => mfail (ADS l sch)
@@ -185,8 +186,11 @@ End SpClass.
 
 (* ================= the class ================= *)
 (* excluded, and only that: a ".." that would pop a drive-letter-shaped segment (finding F-C01-9: the
-   model never pops it, in any scheme) - computed on the Standard's own (segment list, buffer) *)
-Definition sp_class_ok (T : list N) : bool := spath_ok_s (path_text_s (sp_path_text T)) [] [].
+   model never pops it, in any scheme) - computed on the Standard's own (segment list, buffer); the test
+   is applied only when the text behind host[:port] is empty or starts with '/', '\', '?', '#' (otherwise
+   both sides fail in the port state whatever follows) *)
+Definition sp_class_ok (T : list N) : bool :=
+  negb (starts_aes (sp_path_text T)) || spath_ok_s (path_text_s (sp_path_text T)) [] [].
 
 Definition in_class_special (input : list N) : bool :=
   match spec_scheme (spec_clean input) with
@@ -256,7 +260,9 @@ Proof.
   assert (ntnl l = drop_sl R) as Hl by (unfold l, drop_sl; rewrite <- Hrem; apply (count_matching_ntnl is_sl rem)).
   assert (usv_list l) as Hul by (apply count_matching_usv'; exact Hur).
   rewrite <- Hl in Hok, HA.
-  pose proof (model_sp dbg hp hpo hd shp shs sch l Hul Hcan Hsp Hok HA) as HM. cbv zeta in HM.
+  assert (starts_aes (sp_path_text (ntnl l)) = true -> spath_ok_s (path_text_s (sp_path_text (ntnl l))) [] [] = true) as Hok'.
+  { intros K. rewrite K in Hok. exact Hok. }
+  pose proof (model_sp dbg hp hpo hd shp shs sch l Hul Hcan Hsp Hok' HA) as HM. cbv zeta in HM.
   rewrite Hl in HM.
   assert (parse_url dbg hp hpo hd None None input
           = (' se <~ to_u32 (nlen sch) ;; after_double_slash dbg hp hpo hd None CUrlParser STSpecialNotFile se (sch ++ [58]) l)) as Epu.
